@@ -81,8 +81,10 @@ def run(ctx):
     cb = need(where, calling(g, attr="create_branch", recv="self.controldir"), "controldir.create_branch()")
     # ---- P7: a branch created in place of a reference has its history in the repository it will use -------------------
     # (whichever repository that is: a new one, or an existing shared one that is not the referenced branch's)
-    fetch_ref = [n.id for n in g.nodes if any(call_attr(c) == "fetch" and c.args and "referenced_branch" in norm(c.args[0]) for c in n.calls())]
-    need(where, fetch_ref, "repo.fetch(self.referenced_branch.repository, …)")
+    # a local that may hold the referenced branch's repository counts as a source as well (old_repo = self.referenced_branch.repository)
+    ref_locals = {t.id for a_ in walk_own(fn) if isinstance(a_, ast.Assign) and "referenced_branch" in norm(a_.value) for t in a_.targets if isinstance(t, ast.Name)}
+    fetch_ref = [n.id for n in g.nodes if any(call_attr(c) == "fetch" and c.args and ("referenced_branch" in norm(c.args[0]) or (isinstance(c.args[0], ast.Name) and c.args[0].id in ref_locals)) for c in n.calls())]
+    need(where, [n.id for n in g.nodes if any(call_attr(c) == "fetch" for c in n.calls())], "repo.fetch(…)")
     for create_repo in (True, False):
         g7 = g.assume({"self._create_branch": True, "self.referenced_branch is not None": True, "self.referenced_branch is None": False, "self._create_repository": create_repo, "self._create_branch and self.referenced_branch is not None": True}).without_exc_edges()
         live_cb = [i for i in cb if i in g7.reachable_from_entry()]
